@@ -1105,7 +1105,7 @@ def specialise_value(n, lid, val):
             for s_ in x.get("stmts", []):
                 s2 = go(s_)
                 st.append(s2)
-                e_ = s2.get("e") if s2.get("k") in ("semi", "expr") else None
+                e_ = s2.get("e") if s2.get("k") in ("semi", "expr") else (s2.get("init") if s2.get("k") == "let" and "else" not in s2 else None)
                 if e_ is not None and diverges(e_):
                     return dict(x, stmts=st, expr=None)
             return dict(x, stmts=st, expr=go(x.get("expr")) if x.get("expr") is not None else None)
